@@ -1,6 +1,6 @@
 #!/bin/bash
 # re-run every stored seeded change (seeded/<id>/patch.diff) against the check of its property; writes seeded/RESULTS.md
-cd /verif
+cd "$(dirname "$0")/.."
 echo "| seeded change | property check | result | replay kind |" > seeded/RESULTS.md
 echo "|---|---|---|---|" >> seeded/RESULTS.md
 for d in seeded/C*/; do
